@@ -7,7 +7,7 @@ from .. import sut
 from . import histcheck as hc
 from . import c02
 
-KINDS = {'alive', 'lifespan', 'annotation', 'line', 'exception'}
+KINDS = {'alive', 'lifespan', 'annotation', 'line', 'exception', 'shape'}
 
 
 def run(run, tier, seed):
